@@ -215,11 +215,19 @@ func (p *Primary) StreamWAL(
 
 	log.Info("Replica registered with address: %s", listenerAddress)
 
+	// StartSequence is the next entry the replica expects, so what it has
+	// acknowledged so far is everything below it; the catch-up poll reads
+	// from LastAckSequence+1 and must include the entry at StartSequence
+	var lastAck uint64
+	if req.StartSequence > 0 {
+		lastAck = req.StartSequence - 1
+	}
+
 	session := &ReplicaSession{
 		ID:              sessionID,
 		StartSequence:   req.StartSequence,
 		Stream:          stream,
-		LastAckSequence: req.StartSequence,
+		LastAckSequence: lastAck,
 		SupportedCodecs: []proto.CompressionCodec{proto.CompressionCodec_NONE},
 		Connected:       true,
 		Active:          true,
